@@ -34,3 +34,12 @@ finally:
     for f in os.listdir("/verif/harness"):
         if f.startswith("go-alt") or f.startswith("go-alt"):
             pass
+
+# alt-cleanup: harness binaries built against the scratch worktree
+import glob as _glob
+_tag = "-alt" + hashlib.sha1(os.path.abspath(wt).encode()).hexdigest()[:8]
+for _f in _glob.glob("/verif/harness/bin/*" + _tag) + _glob.glob("/verif/harness/go-alt*" + _tag + "*"):
+    try:
+        os.remove(_f)
+    except OSError:
+        pass
